@@ -42,7 +42,10 @@ ASSUMPTIONS = [
     "number and order of iterations",
     "the uncached computation reads one registry state (its linearisation point); mutators end with changed(); "
     "the extendors list handed to a running Python walker is an immutable snapshot (add_extendor / remove_extendor "
-    "assign a new list: shape-checked on adapter.py on every run, fail closed)",
+    "assign a new list: shape-checked on adapter.py on every run, fail closed); every mutator of "
+    "BaseAdapterRegistry ends with self.changed(self) and nothing switches ``changed`` off (shape-checked likewise); "
+    "answers given in the MIDDLE of rebuild() are those of a half-replayed registry: judged, recorded as known "
+    "finding F14 (exact key; only rebuild, only strictly inside the call, only answers a prefix of the replay gives)",
     "memory exhaustion (an unchecked PyTuple_New in _generations_tuple is reported in coverage, not judged)",
 ]
 TECHNIQUE = ("Coq proof of an ownership discipline over a reference-counting machine with an adversarial environment; "
@@ -338,11 +341,97 @@ def extendors_are_snapshots():
     return errs
 
 
+def mutators_end_with_changed():
+    """Fail-closed shape check of adapter.py: every mutator of BaseAdapterRegistry invalidates LAST.
+    register / unregister / subscribe / unsubscribe / _setBases: the last top-level statement is
+    ``self.changed(self)``, or ``return <constant>`` right after it; nothing in the module assigns, deletes
+    or setattr's an attribute called ``changed`` (the notification cannot be switched off); no ``try`` /
+    ``with`` wraps the tail.  rebuild(): calls ``self.__init__(..)`` and ends with top-level loops whose
+    bodies are exactly ``self.register(*args)`` / ``self.subscribe(*args)`` (each of which ends with
+    changed()), again outside any ``try``.  Early returns before the storage is touched are allowed and not
+    analysed further.  -> list of errors"""
+    import ast
+    path = os.path.join(C.REPO, "src", "zope", "interface", "adapter.py")
+    try:
+        tree = ast.parse(open(path).read())
+    except Exception as e:   # noqa
+        return ["adapter.py does not parse: %r" % (e,)]
+    errs = []
+    for node in ast.walk(tree):
+        targets = []
+        if isinstance(node, ast.Assign):
+            targets = node.targets
+        elif isinstance(node, (ast.AugAssign, ast.AnnAssign)):
+            targets = [node.target]
+        elif isinstance(node, ast.Delete):
+            targets = node.targets
+        for t in targets:
+            if isinstance(t, ast.Attribute) and t.attr == "changed":
+                errs.append("line %d: the attribute ``changed`` is assigned or deleted" % node.lineno)
+        if isinstance(node, ast.Call) and isinstance(node.func, ast.Name) and node.func.id in ("setattr", "delattr"):
+            if len(node.args) > 1 and isinstance(node.args[1], ast.Constant) and node.args[1].value == "changed":
+                errs.append("line %d: %s(.., 'changed')" % (node.lineno, node.func.id))
+        if isinstance(node, ast.Subscript) and isinstance(node.slice, ast.Constant) and node.slice.value == "changed" \
+                and isinstance(getattr(node, "ctx", None), (ast.Store, ast.Del)):
+            errs.append("line %d: __dict__['changed'] is written" % node.lineno)
+    cls = [n for n in tree.body if isinstance(n, ast.ClassDef) and n.name == "BaseAdapterRegistry"]
+    if len(cls) != 1:
+        return errs + ["class BaseAdapterRegistry not found in adapter.py"]
+    fns = {n.name: n for n in cls[0].body if isinstance(n, ast.FunctionDef)}
+
+    def is_changed_call(st):
+        return (isinstance(st, ast.Expr) and isinstance(st.value, ast.Call) and isinstance(st.value.func, ast.Attribute)
+                and st.value.func.attr == "changed" and isinstance(st.value.func.value, ast.Name)
+                and st.value.func.value.id == "self")
+
+    for name in ("register", "unregister", "subscribe", "unsubscribe", "_setBases"):
+        fn = fns.get(name)
+        if fn is None:
+            errs.append("BaseAdapterRegistry.%s not found" % name)
+            continue
+        body = [st for st in fn.body if not (isinstance(st, ast.Expr) and isinstance(st.value, ast.Constant))]
+        tail = body[-2:] if (body and isinstance(body[-1], ast.Return)) else body[-1:]
+        if tail and isinstance(tail[-1], ast.Return):
+            ok = len(tail) == 2 and is_changed_call(tail[0]) and (tail[1].value is None or isinstance(tail[1].value, ast.Constant))
+        else:
+            ok = bool(tail) and is_changed_call(tail[-1])
+        if not ok:
+            errs.append("%s does not end with ``self.changed(self)`` (line %d)" % (name, fn.lineno))
+    fn = fns.get("rebuild")
+    if fn is None:
+        errs.append("BaseAdapterRegistry.rebuild not found")
+    else:
+        if any(isinstance(n, (ast.Try, ast.With)) for st in fn.body for n in ast.walk(st)
+               if not isinstance(st, ast.FunctionDef)):
+            errs.append("rebuild: try / with around the replay (line %d)" % fn.lineno)
+        body = [st for st in fn.body if not (isinstance(st, ast.Expr) and isinstance(st.value, ast.Constant))]
+        tail = []
+        while body and isinstance(body[-1], ast.For):
+            tail.append(body.pop())
+        called = set()
+        for st in tail:
+            b = st.body
+            if len(b) == 1 and isinstance(b[0], ast.Expr) and isinstance(b[0].value, ast.Call) \
+                    and isinstance(b[0].value.func, ast.Attribute) and isinstance(b[0].value.func.value, ast.Name) \
+                    and b[0].value.func.value.id == "self" and b[0].value.func.attr in ("register", "subscribe"):
+                called.add(b[0].value.func.attr)
+            else:
+                errs.append("rebuild: a trailing loop does something else than self.register / self.subscribe (line %d)" % st.lineno)
+        if called != {"register", "subscribe"}:
+            errs.append("rebuild does not end with the replay loops over self.register(*args) and self.subscribe(*args)")
+        if not any(isinstance(n, ast.Call) and isinstance(n.func, ast.Attribute) and n.func.attr == "__init__" for n in ast.walk(fn)):
+            errs.append("rebuild does not re-initialise the registry through self.__init__")
+    return errs
+
+
 def regenerate(run):
     errs = cskeleton.regenerate()
     shape = extendors_are_snapshots()
     run.coverage["extendors_updates_assign_new_lists"] = not shape
     errs += ["adapter.py extendors: " + e for e in shape]
+    shape2 = mutators_end_with_changed()
+    run.coverage["mutators_end_with_changed"] = not shape2
+    errs += ["adapter.py mutators: " + e for e in shape2]
     try:
         desc = json.load(open(cskeleton.OUT_JSON))
     except Exception:   # noqa
@@ -368,7 +457,7 @@ def regenerate(run):
         if fails:
             errs.append("ownership discipline D violated by today's C source on %d path(s), first: %s"
                         % (len(fails), fails[0]))
-    _STATE["skeleton_broken"] = bool([e for e in errs if not e.startswith("adapter.py extendors")])
+    _STATE["skeleton_broken"] = bool([e for e in errs if not e.startswith("adapter.py ")])
     return errs
 
 
@@ -480,6 +569,11 @@ def extra(run, impl, known):
                               "extra_" + label.replace("/", "_"), key="crash:" + label, known=known)
             continue
         summary[label] = res.get("summary", "ok")
+        for f in res.get("findings") or []:
+            rp = {"property": ID, "kind": "concrete failing run (misbehaviour with a stable signature)", "run": label,
+                  "finding": f, "replay": how}
+            run.add_violation("%s: %s" % (label, f["text"][:300]), rp, "extra_" + label.replace("/", "_") + "_" + f["key"][:12],
+                              key=f["key"], known=known)
         if res.get("failures"):
             rp = {"property": ID, "kind": "concrete failing run", "run": label, "failures": res["failures"][:10],
                   "stats": res.get("stats"), "replay": how}
